@@ -582,13 +582,17 @@ theorem TOK.size_eq {w : Nat} {t : FNode} (h : TOK w t) : size t = (content t).l
 theorem TOK.of_node {w : Nat} {t : FNode} (h1 : wellSized t = true) (h2 : rootShape false w (-1) t = true) : TOK w t :=
   ⟨h1, Or.inr h2⟩
 
+theorem DM.anchor_none {s : DM} (h : s.wrBuf = none) : s.anchor = s.writeStart := by simp [DM.anchor, h]
+theorem DM.anchor_some {s : DM} {buf : List UInt8} (h : s.wrBuf = some buf) : s.anchor = s.curWrOff := by
+  simp [DM.anchor, h]
+
 theorem sync_ok (c : Cfg) (s : DM) (h : Inv c s) :
     ∃ s1, sync c s = some s1 ∧ Inv c s1 ∧ s1.wrBuf = none ∧ content s1.cur = s.bytes ∧
-      s1.curWrOff = s.curWrOff ∧ (s.wrBuf = none → s1 = s) := by
+      s1.curWrOff = s.curWrOff ∧ s1.writeStart = s.anchor := by
   obtain ⟨hw, hk, htok, hbuf⟩ := h
   cases hb : s.wrBuf with
   | none =>
-    refine ⟨s, by simp [sync, hb], ⟨hw, hk, htok, hbuf⟩, hb, by simp [DM.bytes, hb], rfl, fun _ => rfl⟩
+    refine ⟨s, by simp [sync, hb], ⟨hw, hk, htok, hbuf⟩, hb, by simp [DM.bytes, hb], rfl, by simp [DM.anchor, hb]⟩
   | some buf =>
     have hsz := htok.size_eq
     -- expandSparse up to writeStart
@@ -623,7 +627,7 @@ theorem sync_ok (c : Cfg) (s : DM) (h : Inv c s) :
       simp only [hb, e1, e2]
     · exact ⟨hw, hk, t2, by intro b hb'; simp at hb'⟩
     · simp [DM.bytes, hb, c2]
-    · intro h'; simp at h'
+    · simp [DM.anchor, hb, hbuf buf hb]
 
 theorem DM.size_eq (c : Cfg) (s : DM) (h : Inv c s) : s.size = s.bytes.length := by
   obtain ⟨_, _, htok, _⟩ := h
@@ -634,48 +638,52 @@ theorem DM.size_eq (c : Cfg) (s : DM) (h : Inv c s) : s.size = s.bytes.length :=
 
 theorem write_ok (c : Cfg) (s : DM) (b : List UInt8) (h : Inv c s) :
     (write c s b).2.2 = true ∧ (write c s b).2.1 = b.length ∧ Inv c (write c s b).1 ∧
-    (write c s b).1.bytes = pwrite s.bytes s.curWrOff b ∧ (write c s b).1.curWrOff = s.curWrOff + b.length := by
+    (write c s b).1.bytes = pwrite s.bytes s.curWrOff b ∧ (write c s b).1.curWrOff = s.curWrOff + b.length ∧
+    (write c s b).1.anchor = s.curWrOff + b.length := by
   obtain ⟨hw, hk, htok, hbuf⟩ := h
   -- the state with the bytes added to the buffer
   have hs1 : ∀ s1 : DM, s1 = DM.mk s.cur (if s.wrBuf.isNone then s.curWrOff else s.writeStart)
         (s.curWrOff + b.length) (some (s.wrBuf.getD [] ++ b)) →
-      Inv c s1 ∧ s1.bytes = pwrite s.bytes s.curWrOff b ∧ s1.curWrOff = s.curWrOff + b.length := by
+      Inv c s1 ∧ s1.bytes = pwrite s.bytes s.curWrOff b ∧ s1.curWrOff = s.curWrOff + b.length ∧
+        s1.anchor = s.curWrOff + b.length := by
     intro s1 e
     subst e
     cases hb : s.wrBuf with
     | none =>
-      refine ⟨⟨hw, hk, htok, ?_⟩, ?_, rfl⟩
+      refine ⟨⟨hw, hk, htok, ?_⟩, ?_, rfl, by simp [DM.anchor]⟩
       · intro buf hb'
         simp only [hb, Option.getD_none, List.nil_append, Option.some.injEq] at hb'
         subst hb'; simp [hb]
       · simp [DM.bytes, hb]
     | some buf =>
       have hpos := hbuf buf hb
-      refine ⟨⟨hw, hk, htok, ?_⟩, ?_, rfl⟩
+      refine ⟨⟨hw, hk, htok, ?_⟩, ?_, rfl, by simp [DM.anchor]⟩
       · intro buf' hb'
         simp only [hb, Option.getD_some, Option.some.injEq] at hb'
         subst hb'; simp [hb, hpos]; omega
       · simp only [DM.bytes, hb, Option.getD_some, Option.isNone_some, Bool.false_eq_true, if_false]
         rw [hpos, pwrite_pwrite_append]
-  obtain ⟨i1, i2, i3⟩ := hs1 _ rfl
+  obtain ⟨i1, i2, i3, i4⟩ := hs1 _ rfl
   unfold write
   simp only
   split
-  · obtain ⟨s2, y1, y2, y3, y4, y5, _⟩ := sync_ok c _ i1
+  · obtain ⟨s2, y1, y2, y3, y4, y5, y6⟩ := sync_ok c _ i1
     simp only [y1]
-    refine ⟨trivial, trivial, y2, ?_, ?_⟩
+    refine ⟨trivial, trivial, y2, ?_, ?_, ?_⟩
     · simp only [DM.bytes, y3, y4]; exact i2
     · rw [y5]
-  · exact ⟨rfl, rfl, i1, i2, i3⟩
+    · rw [DM.anchor_none y3, y6]; exact i4
+  · exact ⟨rfl, rfl, i1, i2, i3, i4⟩
 
 theorem read_ok (c : Cfg) (s : DM) (k : Nat) (h : Inv c s) :
     (read c s k).2.2 = true ∧ (read c s k).2.1 = (s.bytes.drop s.curWrOff).take k ∧ Inv c (read c s k).1 ∧
     (read c s k).1.bytes = s.bytes ∧
-    (read c s k).1.curWrOff = s.curWrOff + ((s.bytes.drop s.curWrOff).take k).length := by
-  obtain ⟨s1, y1, y2, y3, y4, y5, _⟩ := sync_ok c s h
+    (read c s k).1.curWrOff = s.curWrOff + ((s.bytes.drop s.curWrOff).take k).length ∧
+    (read c s k).1.anchor = s.anchor := by
+  obtain ⟨s1, y1, y2, y3, y4, y5, y6⟩ := sync_ok c s h
   unfold read
   simp only [y1, y4, y5]
-  refine ⟨trivial, trivial, ?_, ?_, trivial⟩
+  refine ⟨trivial, trivial, ?_, ?_, trivial, by simp [DM.anchor, y3, y6]⟩
   · obtain ⟨a, b, c', d⟩ := y2
     exact ⟨a, b, c', by intro buf hb; simp [y3] at hb⟩
   · simp [DM.bytes, y3, y4]
@@ -685,10 +693,10 @@ theorem seek_ok (c : Cfg) (s : DM) (off : Int) (whence : Nat) (h : Inv c s) :
     C10.abs (seek c s off whence).1 = (specStep (C10.abs s) (.seek off whence)).1 ∧
     (if (seek c s off whence).2.2 then Out.pos (seek c s off whence).2.1 else Out.err) =
       (specStep (C10.abs s) (.seek off whence)).2 := by
-  obtain ⟨s1, y1, y2, y3, y4, y5, _⟩ := sync_ok c s h
+  obtain ⟨s1, y1, y2, y3, y4, y5, y6⟩ := sync_ok c s h
   have hsz : (s1.size : Int) = (s.bytes.length : Int) := by
     rw [DM.size_eq c s1 y2]; simp [DM.bytes, y3, y4]
-  have habs : C10.abs s1 = C10.abs s := by simp [C10.abs, DM.bytes, y3, y4, y5]
+  have habs : C10.abs s1 = C10.abs s := by simp [C10.abs, DM.bytes, DM.anchor, y3, y4, y5, y6]
   unfold seek
   simp only [y1, specStep, C10.abs, hsz, y5]
   generalize ht : (if whence = 1 then some ((s.curWrOff : Int) + off)
@@ -718,12 +726,15 @@ theorem seek_ok (c : Cfg) (s : DM) (off : Int) (whence : Nat) (h : Inv c s) :
       obtain ⟨cur1, e1, c1, t1⟩ := h1
       simp only [e1]
       refine ⟨⟨hw, hk, t1, by intro buf hb; simp [y3] at hb⟩, ?_, by simp⟩
-      simp [DM.bytes, y3, c1]
+      simp [DM.bytes, DM.anchor, y3, c1]
 
 theorem truncate_ctl_ok (c : Cfg) (s : DM) (sz : Nat) (h : Inv c s) :
     (truncate c s sz).2 = true ∧ Inv c (truncate c s sz).1 ∧
-    (truncate c s sz).1.bytes = (zext s.bytes sz).take sz ∧ (truncate c s sz).1.curWrOff = s.curWrOff := by
-  obtain ⟨s1, y1, y2, y3, y4, y5, _⟩ := sync_ok c s h
+    (truncate c s sz).1.bytes = (zext s.bytes sz).take sz ∧
+    (truncate c s sz).1.curWrOff =
+      (if sz < s.bytes.length ∧ s.curWrOff > sz then max s.anchor sz else s.curWrOff) ∧
+    (truncate c s sz).1.anchor = s.anchor := by
+  obtain ⟨s1, y1, y2, y3, y4, y5, y6⟩ := sync_ok c s h
   have hsz : s1.size = s.bytes.length := by
     rw [DM.size_eq c s1 y2]; simp [DM.bytes, y3, y4]
   obtain ⟨hw, hk, htok, _⟩ := y2
@@ -735,7 +746,8 @@ theorem truncate_ctl_ok (c : Cfg) (s : DM) (sz : Nat) (h : Inv c s) :
   rw [take_zext]
   by_cases heq : sz = s.bytes.length
   · simp only [heq, if_true, Nat.le_refl]
-    refine ⟨trivial, ⟨hw, hk, htok, by intro buf hb; simp [y3] at hb⟩, ?_, y5⟩
+    refine ⟨trivial, ⟨hw, hk, htok, by intro buf hb; simp [y3] at hb⟩, ?_, by simp [y5],
+      by rw [DM.anchor_none y3, y6]⟩
     simp [DM.bytes, y3, y4]
   · simp only [heq, if_false]
     by_cases hgt : sz > s.bytes.length
@@ -743,17 +755,21 @@ theorem truncate_ctl_ok (c : Cfg) (s : DM) (sz : Nat) (h : Inv c s) :
       simp only [hgt, if_true, hle, if_false]
       obtain ⟨t', e1, e2, e3, e4⟩ := expandSparse_ok c hw s1.cur (sz - s.bytes.length) htok
       simp only [e1]
-      refine ⟨trivial, ⟨hw, hk, TOK.of_node e3 e4, hnb t'⟩, ?_, y5⟩
-      simp [DM.bytes, y3, e2, y4]
+      refine ⟨trivial, ⟨hw, hk, TOK.of_node e3 e4, hnb t'⟩, ?_, ?_, by simp [DM.anchor, y3, y6]⟩
+      · simp [DM.bytes, y3, e2, y4]
+      · have : ¬ (sz < s.bytes.length ∧ s.curWrOff > sz) := by omega
+        simp [this, y5]
     · have hle : sz ≤ s.bytes.length := by omega
       simp only [hgt, if_false, hle, if_true]
       obtain ⟨t', e1, e2, e3, e4, e5, e6, e7⟩ := truncate_ok c.w s1.cur htok.1 sz (by rw [htok.size_eq, y4]; omega)
       simp only [e1]
-      refine ⟨trivial, ⟨hw, hk, ⟨e3, ?_⟩, hnb t'⟩, ?_, y5⟩
+      have hlt : sz < s.bytes.length := by omega
+      refine ⟨trivial, ⟨hw, hk, ⟨e3, ?_⟩, by intro buf hb; simp [y3] at hb⟩, ?_, ?_, by simp [DM.anchor, y3, y6]⟩
       · rcases htok.2 with hl | hn
         · left; rw [e6]; exact hl
         · right; exact e7 _ _ hn
       · simp [DM.bytes, y3, e2, y4]
+      · simp only [y5, y6, hlt, true_and]
 
 theorem content_collapse (c : Cfg) (t : FNode) : content (collapse c t) = content t := by
   unfold collapse
@@ -765,18 +781,21 @@ theorem content_collapse (c : Cfg) (t : FNode) : content (collapse c t) = conten
 
 theorem getNode_ok (c : Cfg) (s : DM) (h : Inv c s) :
     ∃ t, (getNode c s).2 = some t ∧ content t = s.bytes ∧ Inv c (getNode c s).1 ∧
-      (getNode c s).1.bytes = s.bytes ∧ (getNode c s).1.curWrOff = s.curWrOff := by
-  obtain ⟨s1, y1, y2, y3, y4, y5, _⟩ := sync_ok c s h
+      (getNode c s).1.bytes = s.bytes ∧ (getNode c s).1.curWrOff = s.curWrOff ∧
+      (getNode c s).1.anchor = s.anchor := by
+  obtain ⟨s1, y1, y2, y3, y4, y5, y6⟩ := sync_ok c s h
   unfold getNode
   simp only [y1]
-  exact ⟨_, rfl, by rw [content_collapse, y4], y2, by simp [DM.bytes, y3, y4], y5⟩
+  exact ⟨_, rfl, by rw [content_collapse, y4], y2, by simp [DM.bytes, y3, y4], y5, by rw [DM.anchor_none y3, y6]⟩
 
 theorem writeAt_ok (c : Cfg) (s : DM) (b : List UInt8) (off : Nat) (h : Inv c s) :
     (writeAt c s b off).2.2 = true ∧ (writeAt c s b off).2.1 = b.length ∧ Inv c (writeAt c s b off).1 ∧
-    (writeAt c s b off).1.bytes = pwrite s.bytes off b ∧ (writeAt c s b off).1.curWrOff = off + b.length := by
+    (writeAt c s b off).1.bytes = pwrite s.bytes off b ∧ (writeAt c s b off).1.curWrOff = off + b.length ∧
+    (writeAt c s b off).1.anchor = off + b.length := by
   have hgen : (writeAt.general c s b off).2.2 = true ∧ (writeAt.general c s b off).2.1 = b.length ∧
       Inv c (writeAt.general c s b off).1 ∧ (writeAt.general c s b off).1.bytes = pwrite s.bytes off b ∧
-      (writeAt.general c s b off).1.curWrOff = off + b.length := by
+      (writeAt.general c s b off).1.curWrOff = off + b.length ∧
+      (writeAt.general c s b off).1.anchor = off + b.length := by
     unfold writeAt.general
     by_cases hne : off ≠ s.curWrOff
     · simp only [hne, ne_eq, not_false_eq_true, if_true]
@@ -801,8 +820,8 @@ theorem writeAt_ok (c : Cfg) (s : DM) (b : List UInt8) (off : Nat) (h : Inv c s)
       have inv3 : Inv c { s2 with writeStart := off, curWrOff := off } := by
         obtain ⟨a1, a2, a3, _⟩ := y2
         exact ⟨a1, a2, a3, by intro buf hb; simp [y3] at hb⟩
-      obtain ⟨w1, w2, w3, w4, w5⟩ := write_ok c _ b inv3
-      refine ⟨w1, w2, w3, ?_, w5⟩
+      obtain ⟨w1, w2, w3, w4, w5, w6⟩ := write_ok c _ b inv3
+      refine ⟨w1, w2, w3, ?_, w5, w6⟩
       rw [w4]
       simp only [DM.bytes, y3]
       rw [y4]
@@ -830,8 +849,8 @@ theorem writeAt_ok (c : Cfg) (s : DM) (b : List UInt8) (off : Nat) (h : Inv c s)
           | some buf => simp only [getB_pwrite, c1, getB_append_zeros]
     · have he : off = s.curWrOff := by simpa using hne
       simp only [he, ne_eq, not_true_eq_false, if_false]
-      obtain ⟨w1, w2, w3, w4, w5⟩ := write_ok c s b h
-      exact ⟨w1, w2, w3, w4, w5⟩
+      obtain ⟨w1, w2, w3, w4, w5, w6⟩ := write_ok c s b h
+      exact ⟨w1, w2, w3, w4, w5, w6⟩
   unfold writeAt
   cases hb : s.wrBuf with
   | none => simpa using hgen
@@ -842,8 +861,8 @@ theorem writeAt_ok (c : Cfg) (s : DM) (b : List UInt8) (off : Nat) (h : Inv c s)
       obtain ⟨hw, hk, htok, hbuf⟩ := h
       have inv' : Inv c { s with wrBuf := some [], curWrOff := s.writeStart } :=
         ⟨hw, hk, htok, by intro buf' hb'; simp at hb'; subst hb'; simp⟩
-      obtain ⟨w1, w2, w3, w4, w5⟩ := write_ok c _ b inv'
-      refine ⟨w1, w2, w3, ?_, by rw [w5]; try simp [hcond.1]⟩
+      obtain ⟨w1, w2, w3, w4, w5, w6⟩ := write_ok c _ b inv'
+      refine ⟨w1, w2, w3, ?_, by rw [w5]; try simp [hcond.1], by rw [w6]; try simp [hcond.1]⟩
       rw [w4]
       simp only [DM.bytes, hb, hcond.1]
       rw [pwrite_pwrite_cover _ _ [] b (by simp), pwrite_pwrite_cover _ _ buf b hcond.2]
@@ -856,36 +875,36 @@ theorem step_refines (c : Cfg) (s : DM) (op : Op) (h : Inv c s) :
     (step c s op).2 = (specStep (C10.abs s) op).2 := by
   cases op with
   | write b =>
-    obtain ⟨w1, w2, w3, w4, w5⟩ := write_ok c s b h
-    simp only [step, specStep, C10.abs, w1, w2, if_true, w4, w5]
+    obtain ⟨w1, w2, w3, w4, w5, w6⟩ := write_ok c s b h
+    simp only [step, specStep, C10.abs, w1, w2, if_true, w4, w5, w6]
     exact ⟨w3, trivial, trivial⟩
   | writeAt b off =>
-    obtain ⟨w1, w2, w3, w4, w5⟩ := writeAt_ok c s b off h
-    simp only [step, specStep, C10.abs, w1, w2, if_true, w4, w5]
+    obtain ⟨w1, w2, w3, w4, w5, w6⟩ := writeAt_ok c s b off h
+    simp only [step, specStep, C10.abs, w1, w2, if_true, w4, w5, w6]
     exact ⟨w3, trivial, trivial⟩
   | seek off whence =>
     obtain ⟨k1, k2, k3⟩ := seek_ok c s off whence h
     simp only [step]
     exact ⟨k1, k2, k3⟩
   | read k =>
-    obtain ⟨r1, r2, r3, r4, r5⟩ := read_ok c s k h
-    simp only [step, specStep, C10.abs, r1, r2, if_true, r4, r5]
+    obtain ⟨r1, r2, r3, r4, r5, r6⟩ := read_ok c s k h
+    simp only [step, specStep, C10.abs, r1, r2, if_true, r4, r5, r6]
     exact ⟨r3, trivial, trivial⟩
   | truncate sz =>
-    obtain ⟨t1, t2, t3, t4⟩ := truncate_ctl_ok c s sz h
-    simp only [step, specStep, C10.abs, t1, if_true, t3, t4]
-    exact ⟨t2, trivial, trivial⟩
+    obtain ⟨t1, t2, t3, t4, t5⟩ := truncate_ctl_ok c s sz h
+    simp only [step, specStep, C10.abs, t1, if_true, t3, t4, t5]
+    exact ⟨t2, rfl, trivial⟩
   | size =>
     simp only [step, specStep, C10.abs, DM.size_eq c s h]
     exact ⟨h, trivial, trivial⟩
   | sync =>
-    obtain ⟨s1, y1, y2, y3, y4, y5, _⟩ := sync_ok c s h
+    obtain ⟨s1, y1, y2, y3, y4, y5, y6⟩ := sync_ok c s h
     simp only [step, y1, specStep, C10.abs, y5]
     refine ⟨y2, ?_, trivial⟩
-    simp [DM.bytes, y3, y4]
+    simp [DM.bytes, DM.anchor, y3, y4, y6]
   | getNode =>
-    obtain ⟨t, g1, g2, g3, g4, g5⟩ := getNode_ok c s h
-    simp only [step, g1, specStep, C10.abs, g2, g4, g5]
+    obtain ⟨t, g1, g2, g3, g4, g5, g6⟩ := getNode_ok c s h
+    simp only [step, g1, specStep, C10.abs, g2, g4, g5, g6]
     exact ⟨g3, trivial, trivial⟩
 
 end C10
